@@ -186,6 +186,46 @@ func Docs() map[string]func() *sbom.Document {
 			gen.SpareList(d.NodeList)
 			return d
 		},
+		// containment that is not a tree: a node with two containers, a node that lists itself and the root among its
+		// parts, a containment cycle - in every case before other, acceptable targets of the same edge (a serializer that
+		// sorts out what it cannot nest must not do so in the operand's own target lists)
+		"shared-containment": func() *sbom.Document {
+			d := sbom.NewDocument()
+			d.Metadata.Id = "urn:uuid:0b8e2a5e-6c1b-4f6e-9a89-555555555555"
+			for _, id := range []string{"r", "a", "b", "x", "y", "z"} {
+				d.NodeList.Nodes = append(d.NodeList.Nodes, &sbom.Node{Id: id, Name: "n-" + id})
+			}
+			d.NodeList.Edges = []*sbom.Edge{
+				{From: "r", Type: sbom.Edge_contains, To: []string{"a", "b"}},
+				{From: "a", Type: sbom.Edge_contains, To: []string{"x"}},
+				{From: "b", Type: sbom.Edge_contains, To: []string{"x", "y"}},
+				{From: "y", Type: sbom.Edge_contains, To: []string{"y", "r", "b", "z"}},
+				{From: "z", Type: sbom.Edge_dependsOn, To: []string{"z", "a"}},
+			}
+			d.NodeList.RootElements = []string{"r"}
+			return d
+		},
+		// empty values inside maps and lists (as decoding or direct construction produce them; the library's own setters
+		// refuse them): an operation that "cleans" such entries on the way cleans its operand
+		"empty-valued-entries": func() *sbom.Document {
+			d := sbom.NewDocument()
+			d.Metadata.Id = "urn:uuid:0b8e2a5e-6c1b-4f6e-9a89-444444444444"
+			mk := func(id string) *sbom.Node {
+				return &sbom.Node{Id: id, Name: "n-" + id,
+					Hashes:      map[int32]string{int32(sbom.HashAlgorithm_SHA1): "", int32(sbom.HashAlgorithm_SHA256): "bbbb", int32(sbom.HashAlgorithm_MD5): ""},
+					Identifiers: map[int32]string{int32(sbom.SoftwareIdentifierType_PURL): "pkg:apk/w/" + id + "@1", int32(sbom.SoftwareIdentifierType_CPE23): ""},
+					Licenses:    []string{"", "MIT", ""}, Attribution: []string{""}, FileTypes: []string{"", "TEXT"},
+					Suppliers:          []*sbom.Person{{Name: ""}, {Name: "s", Contacts: []*sbom.Person{{}}}},
+					ExternalReferences: []*sbom.ExternalReference{{Url: "", Hashes: map[int32]string{1: ""}}, {Url: "https://x", Hashes: map[int32]string{2: "", 3: "cc"}}},
+				}
+			}
+			d.NodeList.Nodes = []*sbom.Node{mk("r"), mk("a"), mk("b")}
+			d.NodeList.Nodes[2].Type = sbom.Node_FILE
+			d.NodeList.Nodes[1].Hashes[int32(sbom.HashAlgorithm_SHA256)] = "cccc"
+			d.NodeList.Edges = []*sbom.Edge{{From: "r", Type: sbom.Edge_contains, To: []string{"a", "", "b"}}, {From: "a", Type: sbom.Edge_dependsOn, To: []string{}}}
+			d.NodeList.RootElements = []string{"r", ""}
+			return d
+		},
 		// identifier value shapes: well-formed, SPDX-style extra slash, qualifiers+subpath, upper case, truncated, not a purl
 		"identifier-shapes": func() *sbom.Document {
 			d := sbom.NewDocument()
